@@ -106,6 +106,16 @@ def main():
             vals = [ev(ast, c) for c in CONFIGS]
         except Exception:
             vals = [None]
+        # test-only / documentation-only code is not part of what a user of the crate runs
+        try:
+            alt = [ev(ast, {**c, "test": True, "doc": True, "docsrs": True, "doctest": True}) for c in CONFIGS]
+            norm = [ev(ast, {**c, "doc": False, "doctest": False}) for c in CONFIGS]
+            if None not in norm and len(set(norm)) == 1 and None not in alt and all(a != norm[0] for a in alt):
+                continue
+            if None in vals and None not in norm:
+                vals = norm
+        except Exception:
+            pass
         if None in vals:
             print("%s:%d cfg(%s): predicate not understood — code under it may never be compiled by this check" % (f, line, pred))
         elif len(set(vals)) == 1:
